@@ -27,6 +27,7 @@ The following configuration options apply to this backend store:
 
 """
 
+import glob
 import io
 import os
 import shutil
@@ -208,7 +209,8 @@ class _FilesystemDataSource(DataSource):
 
         # Remove all files that match the pattern dirname/.versions/uuid/basename
         versions_dir = self._get_versions_directory(key)
-        basename = os.path.basename(self._escape_key(key.key))
+        # (the key is matched literally: "[", "*" and "?" in it are not glob syntax)
+        basename = glob.escape(os.path.basename(self._escape_key(key.key)))
         # Remove metadata stored with objects:
         for match in versions_dir.glob("*/{}.meta.*".format(basename)):
             match.unlink()
